@@ -34,6 +34,11 @@ def from_dv(v):
     if isinstance(v, list): return [from_dv(x) for x in v]
     return v
 
+BAD_DARGS = []     # directive argument dictionaries in which the defaulted enum / input-object arguments are not their defaults
+def _chk(name, da):
+    if da.get("e") != "P" or da.get("o") != {"k": "Q", "j": "P"}: BAD_DARGS.append([name, repr(dict(da))[:200]])
+    return da["t"]
+
 def make_directive(name, hooks, marks):
     """a tagging directive: logs enter / exit with the rendering of what it received / got back, marks both
     directions when `marks`, calls the next stage exactly once"""
@@ -42,28 +47,28 @@ def make_directive(name, hooks, marks):
     ns = {}
     if "in" in hooks:
         async def on_post_input_coercion(self, directive_args, next_directive, parent_node, value, ctx):
-            t = directive_args["t"]; ctx["log"].append(["in", name, t, "enter", render(value)])
+            t = _chk(name, directive_args); ctx["log"].append(["in", name, t, "enter", render(value)])
             r = await next_directive(parent_node, mark(value, pre("in", t)) if marks else value, ctx)
             ctx["log"].append(["in", name, t, "exit", render(r)])
             return mark(r, post("in", t)) if marks else r
         ns["on_post_input_coercion"] = on_post_input_coercion
     if "arg" in hooks:
         async def on_argument_execution(self, directive_args, next_directive, parent_node, argument_definition_node, argument_node, value, ctx):
-            t = directive_args["t"]; ctx["log"].append(["arg", name, t, "enter", render(value)])
+            t = _chk(name, directive_args); ctx["log"].append(["arg", name, t, "enter", render(value)])
             r = await next_directive(parent_node, argument_definition_node, argument_node, mark(value, pre("arg", t)) if marks else value, ctx)
             ctx["log"].append(["arg", name, t, "exit", render(r)])
             return mark(r, post("arg", t)) if marks else r
         ns["on_argument_execution"] = on_argument_execution
     if "fld" in hooks:
         async def on_field_execution(self, directive_args, next_resolver, parent, args, ctx, info):
-            t = directive_args["t"]; ctx["log"].append(["fld", name, t, "enter", render(args)])
+            t = _chk(name, directive_args); ctx["log"].append(["fld", name, t, "enter", render(args)])
             r = await next_resolver(parent, mark(args, pre("fld", t)) if marks else args, ctx, info)
             ctx["log"].append(["fld", name, t, "exit", render(r)])
             return mark(r, post("fld", t)) if marks else r
         ns["on_field_execution"] = on_field_execution
     if "out" in hooks:
         async def on_pre_output_coercion(self, directive_args, next_directive, value, ctx, info):
-            t = directive_args["t"]; ctx["log"].append(["out", name, t, "enter", render(value)])
+            t = _chk(name, directive_args); ctx["log"].append(["out", name, t, "enter", render(value)])
             r = await next_directive(mark(value, pre("out", t)) if marks else value, ctx, info)
             ctx["log"].append(["out", name, t, "exit", render(r)])
             return mark(r, post("out", t)) if marks else r
@@ -199,13 +204,26 @@ class DirGen:
 
     def sdl(self):
         def D(us): return "".join(" @" + u["name"] + (f'(t: "{u["tag"]}")' if u["tag"] is not None else "") for u in us)
-        out = [f'directive @{i["name"]}(t: String = "d") on {LOCATIONS}' for i in self.impls]
+        # arguments of enum / input-object type with schema defaults, never supplied by a use: every hook must see the defaults
+        out = ["enum DE { P Q }", "input DIn { k: DE = Q, j: DE! }"]
+        out += [f'directive @{i["name"]}(t: String = "d", e: DE = P, o: DIn = {{j: P}}) on {LOCATIONS}' for i in self.impls]
+        ext = []
+        def DX(kw, name, us):
+            """directives of a type: all on the definition, or (deterministically) the last ones through `extend` - same order"""
+            import zlib
+            if len(us) >= 2 and zlib.crc32((name + str(len(us))).encode()) % 2 == 0:
+                k = 1 + zlib.crc32(name.encode()) % (len(us) - 1)
+                if len(us) - k >= 2 and zlib.crc32(("x" + name).encode()) % 2 == 0:
+                    ext.append(f"extend {kw} {name}{D(us[k:k+1])}"); ext.append(f"extend {kw} {name}{D(us[k+1:])}")
+                else: ext.append(f"extend {kw} {name}{D(us[k:])}")
+                return D(us[:k])
+            return D(us)
         for t in self.ins:
             if t["name"] == "String": continue
-            if t["kind"] == "scalar": out.append(f"scalar {t['name']}{D(t['dirs'])}")
-            elif t["kind"] == "enum": out.append(f"enum {t['name']}{D(t['dirs'])} {{ " + " ".join(v["name"] + D(v["dirs"]) for v in t["values"]) + " }")
+            if t["kind"] == "scalar": out.append(f"scalar {t['name']}{DX('scalar', t['name'], t['dirs'])}")
+            elif t["kind"] == "enum": out.append(f"enum {t['name']}{DX('enum', t['name'], t['dirs'])} {{ " + " ".join(v["name"] + D(v["dirs"]) for v in t["values"]) + " }")
             else:
-                out.append(f"input {t['name']}{D(t['dirs'])} {{\n" + "\n".join(f"  {f['name']}: {tstr(f['type'])}" + (" = " + print_value(f["default"]) if f["default"] else "") + D(f["dirs"]) for f in t["fields"]) + "\n}")
+                out.append(f"input {t['name']}{DX('input', t['name'], t['dirs'])} {{\n" + "\n".join(f"  {f['name']}: {tstr(f['type'])}" + (" = " + print_value(f["default"]) if f["default"] else "") + D(f["dirs"]) for f in t["fields"]) + "\n}")
         for o in self.objs:
             lines = []
             for f in o["fields"]:
@@ -214,10 +232,10 @@ class DirGen:
                     a = "(" + ", ".join(f"{x['name']}: {tstr(x['type'])}" + (" = " + print_value(x["default"]) if x["default"] else "") + D(x["dirs"]) for x in f["args"]) + ")"
                 lines.append(f"  {f['name']}{a}: {tstr(f['type'])}{D(f['dirs'])}")
             impl = (" implements " + " & ".join(o["interfaces"])) if o.get("interfaces") else ""
-            out.append(f"type {o['name']}{impl}{D(o['dirs'])} {{\n" + "\n".join(lines) + "\n}")
+            out.append(f"type {o['name']}{impl}{DX('type', o['name'], o['dirs'])} {{\n" + "\n".join(lines) + "\n}")
         for a in self.abstracts:
-            out.append(f"interface {a['name']}{D(a['dirs'])} {{\n" + "\n".join(f"  {fn}: {ft}" for fn, ft in a["fields"]) + "\n}")
-        return "\n".join(out)
+            out.append(f"interface {a['name']}{DX('interface', a['name'], a['dirs'])} {{\n" + "\n".join(f"  {fn}: {ft}" for fn, ft in a["fields"]) + "\n}")
+        return "\n".join(out + ext)
 
 # ---- requests ---------------------------------------------------------------------------------
 class ReqGen:
@@ -369,6 +387,48 @@ async def build(g, seed):
             Resolver(f"{o['name']}.{f['name']}", schema_name=name)(mk())
     return await create_engine(g.sdl(), schema_name=name)
 
+_fp = itertools.count() if "itertools" in globals() else None
+async def falsy_hook_probe(seed):
+    """engine-only scenario (outside the model's tagging universe): output hooks whose result is FALSY ("" / 0 / False / []):
+    the next stage - here the scalar's own coercion - must see that result, as it sees any other"""
+    import itertools as _it
+    from tartiflette import create_engine, Resolver, Scalar, Directive
+    global _fp
+    if _fp is None: _fp = _it.count()
+    name = f"c13fp_{seed}_{next(_fp)}"
+    seen = []
+    def D(dname, result):
+        class Impl:
+            async def on_pre_output_coercion(self, directive_args, next_directive, value, ctx, info):
+                r = await next_directive(value, ctx, info)
+                seen.append([dname, repr(r)])
+                return result if result != "same" else r
+        return Impl()
+    for dn, res in (("blank", ""), ("zero", 0), ("off", False), ("keep", "same")):
+        Directive(dn, schema_name=name)(D(dn, res))
+    for sn in ("Sb", "Sz", "Sf"):
+        Scalar(sn, schema_name=name)(er.CustomScalar())
+    sdl = """directive @blank on SCALAR
+directive @zero on SCALAR
+directive @off on SCALAR
+directive @keep on SCALAR
+scalar Sb @keep @blank
+scalar Sz @zero @keep
+scalar Sf @off
+type Query { s: Sb sl: [Sb!] z: Sz f: Sf! }"""
+    for fn, val in (("s", "secret"), ("sl", ["one", "two"]), ("z", 41), ("f", True)):
+        def mk(val=val):
+            async def r(parent, args, ctx, info): return val
+            return r
+        Resolver(f"Query.{fn}", schema_name=name)(mk())
+    eng = await create_engine(sdl, schema_name=name)
+    resp = await eng.execute("{ s sl z f }")
+    exp = {"s": "", "sl": ["", ""], "z": 0, "f": False}
+    if resp.get("errors") or resp.get("data") != exp:
+        return {"what": [f"output hooks returning a falsy result: the scalar's coercion did not receive the hook's result (answer {json.dumps(resp, default=str)[:300]}, expected data {json.dumps(exp)})"],
+                "query": "{ s sl z f }", "sdl": sdl, "hook_results_seen": seen[:12]}
+    return None
+
 async def explore(tier, seed, m):
     rng = random.Random(seed * 131 + 13)
     st = {"evaluations": 0, "nontrivial": set(), "problems": [], "disagreements": [], "unsupported": 0, "hook_calls": collections.Counter(), "max_nesting": 0,
@@ -383,6 +443,10 @@ async def explore(tier, seed, m):
         except Exception as ex:
             st["problems"].append({"what": [f"decorated schema refused: {type(ex).__name__}: {ex}"[:300]], "sdl": g.sdl()}); continue
         model = g.model()
+        if si == 0:
+            fp = await falsy_hook_probe(seed)
+            if fp: st["problems"].append(fp)
+            st["evaluations"] += 1
         again = None
         for ri in range(nreq):
             if again is not None:
@@ -402,6 +466,9 @@ async def explore(tier, seed, m):
                     resp = await engine.execute(q, variables=dict(rg.values), context=ctx)
             except Exception as ex:
                 st["problems"].append({"what": [f"execute raised {type(ex).__name__}: {ex}"[:300]], "query": q, "variables": rg.values, "sdl": g.sdl()}); continue
+            if BAD_DARGS:
+                st["problems"].append({"what": [f"a hook of @{BAD_DARGS[0][0]} received directive arguments whose defaulted enum / input-object arguments are not the declared defaults: {BAD_DARGS[0][1]}"], "query": q, "variables": rg.values, "sdl": g.sdl()})
+                BAD_DARGS.clear(); continue
             mod = m.ask({"op": "directives", "schema": model, "vardefs": rg.vardefs, "variables": to_dv(rg.values), "selections": sels})
             st["evaluations"] += 1
             if "fail" in mod:
